@@ -103,7 +103,9 @@ def ival(x: Any) -> int:
     i = int(round(f))
     if abs(f - i) > 1e-9:
         raise ValueError(f"not integral: {x}")
-    return i
+    # TLC integers are 32 bit and its JSON reader wraps larger values (4294967295 would read as -1): a value that large is never
+    # legitimate in an observation (times are relative, ids are file positions), so it is pinned to a sentinel TLC can tell from -1
+    return max(-(2 ** 30), min(2 ** 30, i))
 
 
 def scaled(x: Any, k: int) -> int:
